@@ -104,10 +104,18 @@ class Session:
             edges.append((lab(u), lab(v), lab(d["link"])))
         return tuple(sorted(nodes)), tuple(sorted(edges))
 
+    def views_signature(self):
+        """The same graph as seen through the public views Network.nodes / Network.links."""
+        lab, net = self.U.label, self.net
+        return (tuple(sorted(lab(n) for n in net.nodes)), tuple(sorted((lab(u), lab(v), lab(l)) for u, v, l in net.links)))
+
     def c09_after(self, op, raised, must_reject, aborted):
         kind = op["op"]
         eff = effects(op)
         real = self.real_as_refnet_signature()
+        seen = self.views_signature()
+        if seen != (tuple(n for n, _, _ in real[0]), real[1]):
+            raise Violation(f"C09/views-disagree-with-graph-{kind}", f"after {op_brief(op)}: Network.nodes/links show {seen}, the graph holds {real}")
         if must_reject or aborted:
             if raised is None:
                 tag = "malformed-path-accepted" if must_reject else "aborted-call-swallowed"
@@ -269,7 +277,7 @@ class Session:
         edges = [(id(u), id(v), id(d["link"])) for u, v, d in G.edges(data=True)]
         return nodes, edges
 
-    def validate(self, raises: bool, where: str):
+    def validate(self, raises: bool, where: str, mangle=None):
         M = self.M
         exp_ok, violated = ref_valid(self.snapshot())
         tag = "C06/"
@@ -300,6 +308,14 @@ class Session:
             if not (isinstance(out, tuple) and len(out) == 2 and isinstance(out[0], bool)):
                 raise Violation(tag + "bad-return", f"{where}: is_valid(False) returned {out!r}")
             ok, msgs = out
+            if mangle and isinstance(msgs, list):
+                # the caller owns what it was handed: consuming / annotating the returned messages
+                # must not influence later verdicts
+                if mangle == "clear":
+                    msgs_copy = list(msgs); msgs.clear(); msgs = msgs_copy
+                elif mangle == "append":
+                    msgs_copy = list(msgs); msgs.append("note added by the caller"); msgs = msgs_copy
+                self.res.faults["caller_mutates_result"] += 1
             if ok != exp_ok:
                 raise Violation(
                     tag + ("accepts-invalid:" + "+".join(sorted(violated)) if ok else "rejects-valid"),
@@ -409,6 +425,8 @@ class Session:
         except Exception as e:
             raised = e
         self.mutated = True
+        if op.get("fails") and raised is not None:
+            self.res.faults["failing_single_call"] += 1
         outcome = "ok" if raised is None else type(raised).__name__
         if self.prop == "C09":
             self.c09_after(op, raised, must_reject, aborted)
@@ -436,7 +454,7 @@ class Session:
                     outcome = "ok"
                 elif k == "validate":
                     if self.prop == "C06":
-                        outcome = str(self.validate(bool(op["raises"]), f"op#{i} validate"))
+                        outcome = str(self.validate(bool(op["raises"]), f"op#{i} validate", op.get("mangle")))
                     else:
                         try:
                             self.net.is_valid(raises=False)
@@ -831,6 +849,17 @@ def gen_malformed_path(rng: random.Random, U: dict) -> dict:
     return op
 
 
+def gen_failing_call(rng: random.Random, U: dict, model: RefNet) -> dict:
+    """A single construction call that must fail half-way: an ill-typed (None / unhashable)
+    downstream node makes networkx raise after the upstream node has been inserted."""
+    nn, nl = len(U["nodes"]), len(U["links"])
+    bad = [f"x{i}" for i, j in enumerate(U["junk"]) if j is None or j == "@unhashable"]
+    fresh = [f"n{i}" for i in range(nn) if f"n{i}" not in model.nodes] or [f"n{rng.randrange(nn)}"]
+    if rng.random() < 0.8:
+        return {"op": "add_link", "u": rng.choice(fresh), "l": f"l{rng.randrange(nl)}", "v": rng.choice(bad), "fails": True}
+    return {"op": "add_node", "n": rng.choice(bad), "fails": True}
+
+
 def gen_chaos_op(rng: random.Random, U: dict, model: RefNet) -> dict:
     """A legal call that produces an unusual graph (replacement, sharing, self-loop, stray
     node, edges into/out of origin/destination nodes, origin+destination on one node)."""
@@ -942,16 +971,25 @@ def generate(prop: str, run_seed: int, tier: str = "quick") -> dict:
             if r < read_p:
                 push(gen_read_op(rng))
             elif r < read_p + val_p:
-                push({"op": "validate", "raises": rng.random() < 0.3})
+                v = {"op": "validate", "raises": rng.random() < 0.3}
+                if prop == "C06" and not v["raises"] and rng.random() < 0.25:
+                    v["mangle"] = rng.choice(["clear", "append"])
+                    push(v)
+                    v = {"op": "validate", "raises": rng.random() < 0.3}
+                push(v)
             else:
                 break
             if rng.random() < 0.5:
                 break
 
     sprinkle()
+    fail_p = 0.08 if ("chaos" in enabled and prop != "C09") else 0.0
     for op in ops:
         if rng.random() < chaos_p:
             push(gen_chaos_op(rng, U, model))
+            sprinkle()
+        if rng.random() < fail_p:
+            push(gen_failing_call(rng, U, model))
             sprinkle()
         if rng.random() < mal_p:
             push(gen_malformed_path(rng, U))
